@@ -16,7 +16,7 @@ HEADER = "From Dasp Require Import Ring.RingRun."
 CHECK = "check"
 
 B_OPS = ["push", "pop", "get", "set", "idx", "idxset", "slices", "slicesmut", "iter", "map", "mapslices",
-         "drain", "drainlen", "extend", "len", "empty", "full", "maxlen"]
+         "drain", "drainlen", "extend", "len", "empty", "full", "maxlen", "drainnth", "drainskip", "iternth", "iterrev", "iterlast"]
 F_OPS = ["push", "get", "idx", "set", "idxset", "setfirst", "slices", "slicesmut", "iter", "iterloop", "map",
          "extend", "len"]
 
@@ -33,6 +33,8 @@ def coq_op(o):
         "extend": lambda: f"ZExtend {F.zlist(a)}", "len": lambda: "ZLen", "empty": lambda: "ZEmpty",
         "full": lambda: "ZFull", "maxlen": lambda: "ZMaxLen", "setfirst": lambda: f"ZSetFirst {z(a[0])}",
         "iterloop": lambda: f"ZIterLoop {z(a[0])}",
+        "drainnth": lambda: f"ZDrainNth {z(a[0])}", "drainskip": lambda: f"ZDrainNth {z(a[0])}",
+        "iternth": lambda: f"ZIterNth {z(a[0])}", "iterrev": lambda: "ZIterRev", "iterlast": lambda: "ZIterLast",
     }[k]()
 
 
@@ -64,6 +66,8 @@ def rand_op(rng, kind, cap, fresh):
         return [name, rng.range(1, 9) * 1000000]
     if name in ("drain", "iterloop"):
         return [name, rng.below(2 * cap + 3)]
+    if name in ("drainnth", "drainskip", "iternth"):
+        return [name, rng.below(cap + 2)]
     if name == "extend":
         return [name] + [fresh() for _ in range(rng.below(cap + 3))]
     return [name]
@@ -86,13 +90,13 @@ def gen_cases(rng, tier):
             for ln in range(0, cap + 2):
                 ops = []
                 for name in B_OPS:
-                    if name in ("get", "idx"):
+                    if name in ("get", "idx", "iternth"):
                         ops += [[name, i] for i in range(0, cap + 2)]
                     elif name in ("set", "idxset"):
                         continue
                     elif name == "push":
                         continue
-                    elif name in ("map", "mapslices", "drain", "extend", "pop"):
+                    elif name in ("map", "mapslices", "drain", "extend", "pop", "drainnth", "drainskip"):
                         continue
                     else:
                         ops.append([name])
@@ -103,6 +107,8 @@ def gen_cases(rng, tier):
                 muts = [["push", 7], ["pop"], ["map", 1000000], ["mapslices", 2000000], ["extend", 1, 2, 3],
                         ["extend"] + list(range(1, cap + 3)), ["drainlen"]]
                 muts += [["drain", k] for k in range(0, cap + 2)]
+                muts += [["drainnth", k] for k in range(0, cap + 1)] + [["drainskip", k] for k in range(0, cap + 1)]
+                muts += [["iternth", k] for k in range(0, cap + 1)] + [["iterrev"], ["iterlast"]]
                 muts += [["set", i, 99] for i in range(0, cap + 2)] + [["idxset", i, 98] for i in range(0, cap + 2)]
                 for m in muts:
                     items.append(build(dict(kind="B", store=store % 4, start=start, len=ln, data=data,
